@@ -111,6 +111,11 @@ def _only_deref(pl):
 
 
 def _removes(body, bb):
+    # follow trampolines: blocks without assignments that only jump on
+    seen = set()
+    while bb not in seen and not any(st[0] == "=" for st in body["blocks"][bb]["s"]) and body["blocks"][bb]["t"][0] == "goto":
+        seen.add(bb)
+        bb = body["blocks"][bb]["t"][1]
     return any(st[0] == "=" and st[1] == 0 and st[2][0] == "agg" and st[2][1].get("variant") == "Remove" for st in body["blocks"][bb]["s"])
 
 
